@@ -36,7 +36,7 @@ def history(rng, cap, maxlen, profile):
     taken modulo the sets the harness really observes."""
     w_live, w_dead, w_rel, w_canc, w_race, w_probe, p_burst = PROFILES[profile]
     biased = profile != "hostile"
-    n = rng.randint(3, maxlen)
+    n = rng.randint(10 if profile in CONTEXT_PROFILES else 3, maxlen)
     acts = []
     inside, waitq = 0, []
 
@@ -165,10 +165,11 @@ class C09(Prop):
     prop_module = "Props.C09"
     prop_file = "Props/C09.v"
     coq_targets = ["Props/C09.vo", "Run/Judge_C09.vo"]
-    sizes = {"quick": 200, "thorough": 5000}
+    sizes = {"quick": 300, "thorough": 5000}
     design_ref = "DESIGN.md section 6 C09, Appendix A"
     rule = ("one case = one real Engine with limit N in 0..4 (WithRateLimit, or Engine.Inject of the config value "
-            "on an engine built with another limit) and a generated history of <= 25 (thorough <= 40) driver actions: "
+            "on an engine built with another limit) and a generated history of <= 25 (thorough <= 40) driver actions "
+            "(context profiles: >= 10): "
             "start a render (template calling the blocking function gate(id), or a missing template) with a live "
             "context, with a context that is ALREADY over (cancelled before the call / deadline in the past) or with "
             "a context that ends by itself at its k-th use (k in 1..5: Render uses its context 3 times up to the template call, so this is before, in and right after the select, or never); tell a "
@@ -200,8 +201,8 @@ class C09(Prop):
     ]
     assumptions = [
         "timing words are observed, never proved: a cancelled waiter, and any render whose context is over, must have "
-        "returned (or be inside) within 500 ms ('promptly'); a render that may enter must be seen inside within 200 ms "
-        "of the driver action, the final refill within 1 s; a machine stalled for longer than these bounds would "
+        "returned (or be inside) within 2 s ('promptly'); a render that may enter must be seen inside within 1 s "
+        "of the driver action, the final refill within 3 s; a machine stalled for longer than these bounds would "
         "produce a false alarm",
         "the Go scheduler eventually runs every runnable goroutine (fairness); which waiting render enters next is left "
         "to the runtime and not constrained by the model",
